@@ -58,6 +58,10 @@ RULE_SEEDS = [
     "order(c2,c3) increase number of radical(c1)}",
 ]
 
+RULE_SEEDS.append(
+    "rule u2{ reactant r1{ C. labeled c1 } modify number of radical (c1, 2) "
+    "modify number of radical (c1, 1) increase number of radical (c1) }")
+
 # constructs the grammar recognises but the reader does not support
 UNSUPPORTED_SEEDS = [
     "rule z{ reactant r1{ C labeled c1 H labeled h1 single bond to c1} "
@@ -125,6 +129,9 @@ LEXEMES = [
     'c1', 'zz9', 'é', '٣', '\r', '\x0c', '\x0b', '\xa0', '\u2003',
     # characters str.isdigit() accepts and int() does not
     '²', '①',
+    # identifiers spelled like rules of the grammar (the parse tree labels its
+    # nodes with these names)
+    'AtomLabel', 'BondType',
 ]
 SHORT_ALPHABET = ['a', 'C', '1', '_', ' ', '\n', '\t', '{', '}', '(', ')', ',',
                   '!', '.', 'é', '\r']
